@@ -159,10 +159,10 @@ THEOREM DocStep ==
 <1> QED BY <1>3, <1>4
 
 -----------------------------------------------------------------------------
-(* C09: the window predicate over ALL naturals (TLC checks WindowFacts for 0..MaxLen+1). *)
+(* C09: the window predicate over ALL integer bounds and natural anchoring times (TLC: -1..MaxLen+1). *)
 THEOREM WindowUnbounded ==
   ASSUME TD \in Nat
-  PROVE  \A f, u, t \in Nat :
+  PROVE  \A f, u \in Int, t \in Nat :
            /\ (f # 0 /\ u = 0) => (InWindow(f, u, t) <=> (f <= t /\ t <= f + TD))
            /\ (u # 0) => (InWindow(f, u, t) <=> (f <= t /\ t <= u))
            /\ (f = 0 /\ u = 0) => InWindow(f, u, t)
